@@ -44,6 +44,11 @@ def run(ctx):
     ratio_field = None
     if len(upd) == 1:
         ubb, usi, kind, rv = upd[0]
+        if kind == 'assign' and rv['r'] == 'use' and 'l' in rv['a']:
+            # the product may reach the variable through temporaries (a helper's or closure's return slot)
+            uo = tr.origin(rv['a'])
+            if uo['o'] == 'rvalue' and not uo['p']:
+                rv = uo['rv']
         okm = kind == 'assign' and rv['r'] == 'binop' and rv['op'] == 'Mul'
         if okm:
             ops = [rv['a'], rv['b']]
@@ -56,12 +61,57 @@ def run(ctx):
         rep.check(ubb in outer['body'] and ubb not in inner['body'], 'R1', 'cooling-between-inner-loops', where(b, ubb, usi),
                   'in the outer loop body, outside the inner loop',
                   'the temperature is changed inside the inner loop: it is not constant within an inner loop')
-        inner_exits = inner['exits']
-        okp, bad = cfg.all_paths_pass_through(inner_exits, {ubb}, until={outer['header']})
-        bad = [x for x in bad if x == outer['header']]
+        # once per outer iteration: no way round the outer loop misses the update
+        bad = outer['header'] in cfg.reachable_after(outer['header'], avoid={ubb})
         rep.check(not bad, 'R1', 'cooling-on-every-outer-iteration', where(b, ubb, usi),
-                  'every path from the inner loop\'s exit to the outer loop head passes through the update',
+                  'every way round the outer loop passes through the update',
                   'an outer iteration can complete without cooling')
+        # the temperature a decision sees is the one of ITS outer iteration: the value is read before this iteration's update
+        # (update at the end of the iteration: the read is in the next iteration; update at its start, as a generator does: the
+        # read is a snapshot taken before it) — a read after the update in the same iteration would shift the schedule by one
+        karg = oa.dec_args['kt']
+        reads = []          # (bb, stmt index) of the statements that copy kT into the value the decision receives
+        if karg.get('l') == kt_l and not karg.get('p'):
+            reads.append((oa.decision_bb, 10 ** 6))
+        for rbi in sorted(cfg.reach):
+            for rsi, s2 in enumerate(b.blocks[rbi]['stmts']):
+                if s2['s'] != 'assign' or s2['place']['p'] or s2['rv'].get('r') != 'use' or s2['rv']['a'].get('l') != kt_l or \
+                        s2['rv']['a'].get('p'):
+                    continue
+                web = {s2['place']['l']}
+                grew = True
+                while grew:
+                    grew = False
+                    for bb3 in b.blocks:
+                        for s3 in bb3['stmts']:
+                            if s3['s'] != 'assign' or s3['place']['l'] in web or s3['place']['l'] == kt_l:
+                                continue
+                            rv3 = s3['rv']
+                            srcs = []
+                            if rv3['r'] in ('use', 'cast') and 'l' in rv3.get('a', {}):
+                                srcs = [rv3['a']['l']]
+                            elif rv3['r'] == 'aggr':
+                                srcs = [o3['l'] for o3 in rv3['ops'] if 'l' in o3]
+                            elif rv3['r'] == 'ref':
+                                srcs = [rv3['place']['l']]
+                            if any(x in web for x in srcs):
+                                web.add(s3['place']['l'])
+                                grew = True
+                if karg.get('l') in web:
+                    reads.append((rbi, rsi))
+        shifted = False
+        read_bb = oa.decision_bb
+        for rbi, rsi in reads:
+            if rbi == ubb:
+                late = isinstance(usi, int) and rsi > usi
+            else:
+                late = rbi in cfg.reachable_after(ubb, avoid={outer['header']})
+            if late:
+                shifted, read_bb = True, rbi
+        rep.check(not shifted, 'R1', 'decision-sees-the-temperature-of-its-iteration', where(b, read_bb),
+                  'kT is read for the decision before the update of the same outer iteration',
+                  'the decision reads kT after the cooling step of the same outer iteration: the first inner loop already runs at '
+                  'kt_start * factor (schedule shifted by one)')
         rep.sample('%s: kT=_%d; init from kt_start; single update kT*self.%s in bb%d (outer loop, after inner loop bb%d exits)'
                    % (b.path, kt_l, ratio_field, ubb, inner['header']))
     # ---- R2 the factor -------------------------------------------------------------------
